@@ -32,6 +32,14 @@ Theorem C02_partition_app : forall l, Iso.ser_pkt l = hdr_part l ++ Iso.lpayload
 Proof. exact ser_pkt_split. Qed.
 Print Assumptions C02_partition_app.
 
+(* PESHeader (packet.go): the payload when PUSI is set and it begins with 00 00 01 and is longer than 3 bytes *)
+Theorem C02_pes_header : forall l, Iso.wf_lpkt l -> let p := Iso.ser_pkt l in
+  (carries_payload l -> PESHeader p =
+     if (Iso.pusi (Iso.lh l) =? 1) && pes_start (Iso.lpayload l) then Ok (Iso.lpayload l) else Err E.NoPayload) /\
+  (Iso.afc (Iso.lh l) = 2 -> PESHeader p = Err E.NoPayload).
+Proof. exact pes_header. Qed.
+Print Assumptions C02_pes_header.
+
 (* ---- SetPayload: for EVERY well-formed packet that carries payload and EVERY data slice the
         method returns min(n, capacity) and leaves exactly the serialisation of Iso.set_payload l d:
         first min(n, capacity) bytes stored, header fields kept (control 01 -> 11 only when an
